@@ -4,5 +4,5 @@ namespace OllamaVerif.Generated.C08
     with copyNamedFile's same-size shortcut (false, finding F8)? -/
 def linkFixed : Bool := true
 /-- does it refuse a zero-length blob file unless the digest is that of the empty string? -/
-def linkZeroCheck : Bool := false
+def linkZeroCheck : Bool := true
 end OllamaVerif.Generated.C08
